@@ -97,7 +97,7 @@ def main():
                 break
     if why is None:
         for k in after:
-            if k not in before and not h.under(k, ws_real):
+            if k not in before and not h.under(k, ws_real) and not (h.under(ws_real, k) and after[k][0] == "d"):
                 why = f"{k[len(scratch):]} created outside the workspace {ws_real[len(scratch):]}"
                 break
     if why is None and not cfg["force"]:
